@@ -39,6 +39,14 @@ def handle (w : World) (line : String) : World × String :=
       | some w' => let w' := tab w'; (w', dumpW w')
       | none => (w, "CRASH")
     | _, _ => (w, "bad-op")
+  | ["c", l] =>
+    match l.toNat? with
+    | some l =>
+      if l > 1 then (w, "bad-op") else
+      match clearEntriesLoop w.heap (if l == 1 then w.headB else w.headA) (nn + 2) with
+      | some h' => let w' := tab { w with heap := h' }; (w', dumpW w')
+      | none => (w, "CRASH")
+    | none => (w, "bad-op")
   | ["r", n] =>
     match n.toNat? with
     | some n =>
